@@ -89,7 +89,7 @@ void TwoPointsNumericalDerivative::updateDerivatives(const ParameterList& parame
     if (function1_)
       function1_->enableFirstOrderDerivatives(computeD1_);
     if (functionChanged)
-      function_->setParameters(parameters.createSubList(lastVar));
+      function_->setParameters(parameters);
   }
   else
   {
